@@ -76,6 +76,39 @@ def event_job(job):
     return out
 
 
+def thread_job(job):
+    """events evaluated while OTHER events are in flight on the same kernel object: a batch of > 100 events through CphotAng.__call__
+    under the threaded scheduler; a sample of them is judged against the model like any other event"""
+    import warnings
+    warnings.simplefilter("ignore")
+    import dask
+    from nssverif.pipeline import quiet_progress
+    c32, c64 = kernels(525.0)
+    quiet_progress()
+    rng = np.random.default_rng(job["seed"])
+    n = job["n"]
+    beta = np.radians(rng.uniform(8.0, 42.0, n))
+    alt = rng.uniform(0.0, 12.0, n)
+    E = 10.0 ** rng.uniform(-1.0, 2.0, n)
+    with dask.config.set(scheduler="threads", num_workers=4), np.errstate(all="ignore"):
+        d, a = c32(beta, alt, E, np.zeros(n), np.zeros(n), None)
+    out = []
+    for i in rng.choice(n, size=job["take"], replace=False):
+        with np.errstate(all="ignore"):
+            d64, a64 = c64.run(beta[i], alt[i], E[i], 0.0, 0.0, None)
+        out.append({"kind": "k", "beta": bits(beta[i]), "alt": bits(alt[i]), "E100": bits(E[i]), "top": bits(-np.inf), "zdet": bits(525.0),
+                    "d32": bits(d[i]), "a32": bits(a[i]), "has64": c64.dtype == np.float64, "d64": bits(d64), "a64": bits(a64),
+                    "clamped": False, "scale": bits(0.0), "d32ref": bits(d[i]), "a32ref": bits(a[i]),
+                    "_m": {"beta_deg": float(np.degrees(beta[i])), "alt": float(alt[i]), "E100": float(E[i]), "zdet": 525.0, "d32": float(d[i]),
+                           "a32": float(a[i]), "d64": float(d64), "a64": float(a64), "hook_active": bool(c64.dtype == np.float64),
+                           "batch": "threads-4", "error": None}})
+    return out
+
+
+def _dispatch(job):
+    return thread_job(job) if job.get("t") == "threads" else event_job(job)
+
+
 def run(tier="quick", seed=0):
     pr = PropertyRun("C06", tier, seed)
     thorough = tier == "thorough"
@@ -85,8 +118,11 @@ def run(tier="quick", seed=0):
     rng = np.random.default_rng(seed)
     jobs = [{"events": allev[i::14]} for i in range(14)]
     for zdet in ((33.0, 2000.0) if thorough else (33.0,)):
-        jobs.append({"events": [ev[int(k)] for k in rng.choice(len(ev), size=30 if thorough else 3, replace=False)], "zdet": zdet})
-    res = par.pmap(event_job, jobs, workers=14)
+        # other detector altitudes: random events + sub-degree angles (the 1 deg rule must hold through the altitude rescaling as well)
+        sub = [(0.0, 0.0, 1.0), (np.radians(0.5), 0.3, 10.0), (np.radians(0.999), 3.0, 1e-2), (np.radians(0.2), 0.0, 1e3)]
+        jobs.append({"events": sub + [ev[int(k)] for k in rng.choice(len(ev), size=30 if thorough else 3, replace=False)], "zdet": zdet})
+    jobs.append({"t": "threads", "seed": seed + 5, "n": 230, "take": 24 if thorough else 8})
+    res = par.pmap(_dispatch, jobs, workers=14)
     events = [e for r in res for e in r]
     # cost of an event in TLC grows with the number of track steps (low emergence angle): interleave cheap and expensive events over the chunks
     events.sort(key=lambda e: e["_m"]["beta_deg"])
